@@ -722,17 +722,35 @@ type raceWrapServer struct {
 	n      int
 	fail   bool
 	header bool
+	task   *Task
 }
 
 func (s *raceWrapServer) adopt() func() {
 	t := s.w.Adopt("srv", false)
+	s.task = t
 	return t.Detach
+}
+
+// readMD reads a metadata map the way a caller does: all of it.
+func readMD(md metadata.MD) (n int) {
+	for k, vs := range md {
+		n += len(k)
+		for _, v := range vs {
+			n += len(v)
+		}
+	}
+	return n
 }
 
 func (s *raceWrapServer) Unary(ctx context.Context, req *testproto.UnaryRequest) (*testproto.UnaryResponse, error) {
 	defer s.adopt()()
 	_ = grpc.SetHeader(ctx, metadata.Pairs("x-h", req.Msg))
 	_ = grpc.SetTrailer(ctx, metadata.Pairs("x-t", "t"))
+	// (a handler adds to its trailer as it goes; the caller may have given up, and picked up what there was, meanwhile)
+	for i := 0; i < s.n; i++ {
+		s.task.Yield("trailer")
+		_ = grpc.SetTrailer(ctx, metadata.Pairs("x-t", fmt.Sprint("t", i), fmt.Sprint("x-t", i), "u"))
+	}
 	if s.fail {
 		return nil, status.Error(codes.NotFound, "nope")
 	}
@@ -748,14 +766,20 @@ func (s *raceWrapServer) BidiStream(st grpc.BidiStreamingServer[testproto.BidiSt
 	for i := 0; i < s.n; i++ {
 		m, err := st.Recv()
 		if err != nil {
+			st.SetTrailer(metadata.Pairs("x-t", "recv-failed"))
 			return err
 		}
 		out := &testproto.BidiStreamResponse{Msg: "echo:" + m.Msg}
 		if err := st.Send(out); err != nil {
+			st.SetTrailer(metadata.Pairs("x-t", "send-failed"))
 			return err
 		}
 		out.Msg = "changed-after-send" // a sender may reuse its message
+		if s.header {
+			st.SetTrailer(metadata.Pairs("x-t", fmt.Sprint("t", i), fmt.Sprint("x-t", i), "u"))
+		}
 	}
+	s.task.Yield("trailer")
 	st.SetTrailer(metadata.Pairs("x-t", "t"))
 	if s.fail {
 		return status.Error(codes.Aborted, "done")
@@ -787,7 +811,7 @@ func raceWrap(w *World) {
 			if err == nil {
 				_ = len(resp.Msg)
 			}
-			_ = len(h) + len(tr)
+			_ = readMD(h) + readMD(tr)
 			return
 		}
 		st, err := client.BidiStream(ctx)
@@ -819,7 +843,7 @@ func raceWrap(w *World) {
 			}
 		}
 		h, _ := st.Header()
-		_ = len(h) + len(st.Trailer())
+		_ = readMD(h) + readMD(st.Trailer())
 	})
 	w.Run()
 }
